@@ -366,3 +366,539 @@ def to_jsonable(x):
     if isinstance(x, dict):
         return {str(k): to_jsonable(v) for k, v in x.items()}
     return x
+
+
+# ============================================================================= translator
+# Fail-closed Python-ast -> Gallina translation of the CLOSED-FORM parts of
+# /repo/src/qib/tensor_network/symbolic_network.py (the loops themselves stay hand-modelled and
+# correspondence-tied).  `generate()` returns the text of build/<ID>/GenTN.v; coq/props/C07.v and
+# C08.v prove these regenerated definitions equal to / sufficient for what the model uses, so the
+# theorems are re-checked against what the source says on every run.
+#   translated (structurally):  merge's fresh-id arithmetic and join validation, del_axes,
+#       build_contraction_tree's first intermediate id and bump rule, as_einsum's sort key and
+#       axes_map rule, every `return False` condition of is_consistent, the preconditions of
+#       rename_tensor / rename_bond / SymbolicBond / SymbolicTensor.transpose
+#   pinned (normalised source text must equal the expected text, else Unsupported):
+#       the loop skeleton of is_consistent, the pair-repetition test, the first-occurrence rule
+import ast as _ast
+import pyx as _pyx
+
+SN_PATH = "src/qib/tensor_network/symbolic_network.py"
+
+
+class _Unsupported(_pyx.Unsupported):
+    pass
+
+
+def _u(node):
+    return _ast.unparse(node)
+
+
+class X:
+    """typed expression translator.  env: normalised python source of a sub-expression -> (coq, type).
+    types: Z nat int(literal) bool zlist nlist tdict bdict tensor bond"""
+
+    def __init__(self, env):
+        self.env = dict(env)
+
+    def sub(self, **more):
+        e = dict(self.env)
+        e.update(more)
+        return X(e)
+
+    # ---- coercions
+    @staticmethod
+    def lit(v, ty):
+        if ty == "nat":
+            if v < 0:
+                raise _Unsupported("negative literal %d where a nat is needed" % v)
+            return "%d%%nat" % v
+        return "%d%%Z" % v if v >= 0 else "(%d)%%Z" % v
+
+    def num2(self, a, b):
+        """translate two numeric operands to a common type"""
+        (ca, ta), (cb, tb) = a, b
+        if ta == "int" and tb == "int":
+            return self.lit(ca, "Z"), self.lit(cb, "Z"), "Z"
+        if ta == "int":
+            return self.lit(ca, tb), cb, tb
+        if tb == "int":
+            return ca, self.lit(cb, ta), ta
+        if ta == tb and ta in ("Z", "nat"):
+            return ca, cb, ta
+        if {ta, tb} == {"Z", "nat"}:
+            za = ca if ta == "Z" else "(Z.of_nat %s)" % ca
+            zb = cb if tb == "Z" else "(Z.of_nat %s)" % cb
+            return za, zb, "Z"
+        raise _Unsupported("numeric operands of types %s, %s" % (ta, tb))
+
+    def fix(self, r, want=None):
+        c, t = r
+        if t == "int":
+            return self.lit(c, want or "Z"), (want or "Z")
+        return c, t
+
+    # ---- expressions
+    def e(self, n):
+        key = _u(n)
+        if key in self.env:
+            return self.env[key]
+        if isinstance(n, _ast.Constant) and isinstance(n.value, bool):
+            return ("true" if n.value else "false"), "bool"
+        if isinstance(n, _ast.Constant) and isinstance(n.value, int):
+            return n.value, "int"
+        if isinstance(n, _ast.UnaryOp) and isinstance(n.op, _ast.USub) and isinstance(n.operand, _ast.Constant) \
+                and isinstance(n.operand.value, int):
+            return -n.operand.value, "int"
+        if isinstance(n, _ast.UnaryOp) and isinstance(n.op, _ast.Not):
+            c, t = self.e(n.operand)
+            if t in ("zlist", "nlist"):       # `not l` / `if l:` truthiness of a list
+                return "(match %s with [] => true | _ => false end)" % c, "bool"
+            if t != "bool":
+                raise _Unsupported("not of %s" % t)
+            return "(negb %s)" % c, "bool"
+        if isinstance(n, _ast.BoolOp):
+            parts = [self.e(v) for v in n.values]
+            if any(t != "bool" for _, t in parts):
+                raise _Unsupported("boolean operator on non-bool: " + key)
+            op = " && " if isinstance(n.op, _ast.And) else " || "
+            return "(" + op.join(c for c, _ in parts) + ")", "bool"
+        if isinstance(n, _ast.BinOp) and isinstance(n.op, (_ast.Add, _ast.Sub, _ast.Mult)):
+            a, b, t = self.num2(self.e(n.left), self.e(n.right))
+            if isinstance(n.op, _ast.Sub) and t == "nat":
+                raise _Unsupported("subtraction on nat: " + key)
+            o = {"Add": "+", "Sub": "-", "Mult": "*"}[type(n.op).__name__]
+            return "(%s %s %s)%%%s" % (a, o, b, t), t
+        if isinstance(n, _ast.BinOp) and isinstance(n.op, _ast.BitOr):
+            (a, ta), (b, tb) = self.e(n.left), self.e(n.right)
+            if ta == tb == "zlist":
+                return "(%s ++ %s)" % (a, b), "zlist"   # union of key sets, used under max / membership only
+            raise _Unsupported("| on %s, %s" % (ta, tb))
+        if isinstance(n, _ast.IfExp):
+            c, tc = self.e(n.test)
+            a, b, t = self.num2(self.e(n.body), self.e(n.orelse))
+            if tc != "bool":
+                raise _Unsupported("condition of type " + tc)
+            return "(if %s then %s else %s)" % (c, a, b), t
+        if isinstance(n, _ast.Compare) and len(n.ops) == 1:
+            return self.compare(n.left, n.ops[0], n.comparators[0], key)
+        if isinstance(n, _ast.Attribute):
+            c, t = self.e(n.value)
+            tab = {("tensor", "tid"): ("t_id", "Z"), ("tensor", "bids"): ("t_bids", "zlist"),
+                   ("tensor", "shape"): ("t_shape", "nlist"), ("bond", "bid"): ("b_id", "Z"),
+                   ("bond", "tids"): ("b_tids", "zlist")}
+            if (t, n.attr) in tab:
+                f, ty = tab[(t, n.attr)]
+                return "(%s %s)" % (f, c), ty
+            if (t, n.attr) == ("tensor", "ndim"):
+                return "(length (t_shape %s))" % c, "nat"
+            raise _Unsupported("attribute %s of %s" % (n.attr, t))
+        if isinstance(n, _ast.Subscript):
+            c, t = self.e(n.value)
+            i, ti = self.fix(self.e(n.slice), "nat")
+            if ti != "nat":
+                raise _Unsupported("index of type %s in %s" % (ti, key))
+            if t == "zlist":
+                return "(nth %s %s 0%%Z)" % (i, c), "Z"
+            if t == "nlist":
+                return "(nth %s %s 0%%nat)" % (i, c), "nat"
+            raise _Unsupported("subscript of %s" % t)
+        if isinstance(n, _ast.Call):
+            return self.call(n, key)
+        if isinstance(n, _ast.ListComp) and len(n.generators) == 1 and not n.generators[0].is_async:
+            g = n.generators[0]
+            if not isinstance(g.target, _ast.Name):
+                raise _Unsupported("comprehension target " + _u(g.target))
+            src, ts = self.e(g.iter)
+            if ts not in ("nlist", "zlist"):
+                raise _Unsupported("comprehension over " + ts)
+            et = "nat" if ts == "nlist" else "Z"
+            v = g.target.id
+            inner = self.sub(**{v: (v, et)})
+            cur = src
+            for cond in g.ifs:
+                cc, tc = inner.e(cond)
+                if tc != "bool":
+                    raise _Unsupported("filter of type " + tc)
+                cur = "(filter (fun %s => %s) %s)" % (v, cc, cur)
+            body, tb = inner.fix(inner.e(n.elt))
+            if _u(n.elt) == v:
+                return cur, ts
+            if tb not in ("nat", "Z"):
+                raise _Unsupported("comprehension element of type " + tb)
+            return "(map (fun %s => %s) %s)" % (v, body, cur), ("nlist" if tb == "nat" else "zlist")
+        raise _Unsupported("expression " + key)
+
+    def compare(self, l, op, r, key):
+        L, R = self.e(l), self.e(r)
+        if isinstance(op, (_ast.In, _ast.NotIn)):
+            (a, ta), (b, tb) = L, R
+            if tb == "zlist":
+                a, ta = self.fix(L, "Z")
+                c = "(zmem %s %s)" % (a, b)
+            elif tb == "nlist":
+                a, ta = self.fix(L, "nat")
+                c = "(nmem %s %s)" % (a, b)
+            elif tb in ("tdict", "bdict"):
+                a, ta = self.fix(L, "Z")
+                c = "(dhas %s %s)" % (a, b)
+            else:
+                raise _Unsupported("membership in " + tb)
+            if (tb == "nlist") != (ta == "nat"):
+                raise _Unsupported("membership of %s in %s" % (ta, tb))
+            return (c if isinstance(op, _ast.In) else "(negb %s)" % c), "bool"
+        a, b, t = self.num2(L, R)
+        m = "Z" if t == "Z" else "Nat"
+        tab = {"Eq": "%s.eqb %s %s", "Lt": "%s.ltb %s %s", "LtE": "%s.leb %s %s"}
+        nm = type(op).__name__
+        if nm in tab:
+            return "(" + tab[nm] % (m, a, b) + ")", "bool"
+        if nm == "NotEq":
+            return "(negb (%s.eqb %s %s))" % (m, a, b), "bool"
+        if nm == "Gt":
+            return "(%s.ltb %s %s)" % (m, b, a), "bool"
+        if nm == "GtE":
+            return "(%s.leb %s %s)" % (m, b, a), "bool"
+        raise _Unsupported("comparison " + key)
+
+    def call(self, n, key):
+        f = n.func
+        if isinstance(f, _ast.Name) and f.id == "len" and len(n.args) == 1 and not n.keywords:
+            c, t = self.e(n.args[0])
+            if t in ("zlist", "nlist"):
+                return "(length %s)" % c, "nat"
+            raise _Unsupported("len of " + t)
+        if isinstance(f, _ast.Name) and f.id == "max":
+            if len(n.args) == 1 and len(n.keywords) == 1 and n.keywords[0].arg == "default":
+                c, t = self.e(n.args[0])
+                d, td = self.e(n.keywords[0].value)
+                if t == "zlist" and td == "int":
+                    return "(zmaxd %s %s)" % (self.lit(d, "Z"), c), "Z"
+                raise _Unsupported("max over %s default %s" % (t, td))
+            if len(n.args) == 2 and not n.keywords:
+                a, b, t = self.num2(self.e(n.args[0]), self.e(n.args[1]))
+                return "(%s.max %s %s)" % ("Z" if t == "Z" else "Nat", a, b), t
+            raise _Unsupported("max call " + key)
+        if isinstance(f, _ast.Name) and f.id == "range" and len(n.args) == 1:
+            c, t = self.fix(self.e(n.args[0]), "nat")
+            if t != "nat":
+                raise _Unsupported("range of " + t)
+            return "(seq 0 %s)" % c, "nlist"
+        if isinstance(f, _ast.Name) and f.id in ("list", "tuple") and len(n.args) == 1:
+            c, t = self.e(n.args[0])
+            if t in ("zlist", "nlist"):
+                return c, t
+            raise _Unsupported("list() of " + t)
+        if isinstance(f, _ast.Name) and f.id == "sorted" and len(n.args) == 1 and not n.keywords:
+            c, t = self.e(n.args[0])
+            if t == "zlist":
+                return "(zsort %s)" % c, "zlist"
+            raise _Unsupported("sorted of " + t)
+        if isinstance(f, _ast.Name) and f.id == "set" and len(n.args) == 1:
+            c, t = self.e(n.args[0])
+            if t in ("zlist", "nlist"):
+                return "(%s %s)" % ("zdedup" if t == "zlist" else "ndedup", c), t
+            raise _Unsupported("set of " + t)
+        if isinstance(f, _ast.Name) and f.id == "all" and len(n.args) == 1 and isinstance(n.args[0], _ast.GeneratorExp):
+            g = n.args[0]
+            if len(g.generators) != 1 or g.generators[0].ifs or not isinstance(g.generators[0].target, _ast.Name):
+                raise _Unsupported("generator " + key)
+            src, ts = self.e(g.generators[0].iter)
+            if ts not in ("nlist", "zlist"):
+                raise _Unsupported("all over " + ts)
+            v = g.generators[0].target.id
+            body, tb = self.sub(**{v: (v, "nat" if ts == "nlist" else "Z")}).e(g.elt)
+            if tb != "bool":
+                raise _Unsupported("all of " + tb)
+            return "(forallb (fun %s => %s) %s)" % (v, body, src), "bool"
+        if isinstance(f, _ast.Attribute) and f.attr == "count" and len(n.args) == 1:
+            c, t = self.e(f.value)
+            a, ta = self.fix(self.e(n.args[0]), "Z")
+            if t == "zlist" and ta == "Z":
+                return "(zcount %s %s)" % (a, c), "nat"
+            raise _Unsupported("count on " + t)
+        if isinstance(f, _ast.Attribute) and f.attr == "keys" and not n.args:
+            c, t = self.e(f.value)
+            if t in ("tdict", "bdict"):
+                return "(dkeys %s)" % c, "zlist"
+            raise _Unsupported("keys of " + t)
+        if isinstance(f, _ast.Attribute) and f.attr == "index" and len(n.args) == 1:
+            c, t = self.e(f.value)
+            a, ta = self.fix(self.e(n.args[0]), "nat")
+            if t == "nlist" and ta == "nat":
+                return "(nindex %s %s)" % (a, c), "onat"
+            raise _Unsupported("index on " + t)
+        raise _Unsupported("call " + key)
+
+
+# ----------------------------------------------------------------------------- locating statements
+def _fn(cls, name):
+    return _pyx.find_func(cls, name)
+
+
+def _assigns(fn, target):
+    return [n for n in _ast.walk(fn) if isinstance(n, _ast.Assign) and len(n.targets) == 1 and _u(n.targets[0]) == target]
+
+
+def _one(lst, what):
+    if len(lst) != 1:
+        raise _Unsupported("expected exactly one %s, found %d" % (what, len(lst)))
+    return lst[0]
+
+
+def _raises_value_error(ifnode):
+    return (len(ifnode.body) == 1 and isinstance(ifnode.body[0], _ast.Raise) and not ifnode.orelse
+            and isinstance(ifnode.body[0].exc, _ast.Call) and _u(ifnode.body[0].exc.func) == "ValueError")
+
+
+def _guards(fn):
+    """the `if c: raise ValueError(...)` statements of a function, in source order"""
+    out = []
+
+    def walk(stmts):
+        for st in stmts:
+            if isinstance(st, _ast.If) and _raises_value_error(st):
+                out.append(st)
+            elif isinstance(st, (_ast.For, _ast.While, _ast.If, _ast.With, _ast.Try)):
+                walk(st.body)
+                walk(getattr(st, "orelse", []))
+    walk(_pyx.body_nodoc(fn))
+    return out
+
+
+def _defn(name, params, body, rty):
+    return "Definition %s %s : %s :=\n  %s.\n" % (name, " ".join("(%s : %s)" % p for p in params), rty, body)
+
+
+def _expect(cond, msg):
+    if not cond:
+        raise _Unsupported(msg)
+
+
+IC_SKELETON = [
+    "if:0", "for k, tensor in self.tensors.items()", "if:1", "for bid in tensor.bids", "if:2", "bond = self.bonds[bid]", "if:3",
+    "end", "end",
+    "for k, bond in self.bonds.items()", "if:4", "if:5", "dims = []", "bond_axes = self.get_bond_axes(bond.bid)",
+    "for i in range(len(bond.tids))", "if:6", "end",
+    "for tid, ax in zip(bond.tids, bond_axes)", "if:7", "tensor = self.tensors[tid]", "if:8", "if:9",
+    "dims.append(tensor.shape[ax])", "end",
+    "if dims", "if:10", "end", "end", "return True"]
+
+
+def _ic_skeleton(fn):
+    """statement skeleton of is_consistent; the tests of the `... return False` ifs are collected
+    separately (they are translated), `if verbose: print(...)` is dropped"""
+    sk, conds = [], []
+
+    def is_ret_false(st):
+        if not isinstance(st, _ast.If) or st.orelse:
+            return False
+        body = [b for b in st.body if not (isinstance(b, _ast.If) and _u(b.test) == "verbose")]
+        return len(body) == 1 and isinstance(body[0], _ast.Return) and _u(body[0]) == "return False" \
+            and all(isinstance(b, _ast.Return) or (len(b.body) == 1 and _u(b.body[0]).startswith("print(")) for b in st.body)
+
+    def walk(stmts):
+        for st in stmts:
+            if is_ret_false(st):
+                sk.append("if:%d" % len(conds))
+                conds.append(st.test)
+            elif isinstance(st, _ast.For):
+                _expect(not st.orelse, "for-else")
+                sk.append("for %s in %s" % (_u(st.target).strip("()"), _u(st.iter)))
+                walk(st.body)
+                sk.append("end")
+            elif isinstance(st, _ast.If):
+                _expect(not st.orelse, "if-else in is_consistent")
+                sk.append("if " + _u(st.test))
+                walk(st.body)
+                sk.append("end")
+            elif isinstance(st, (_ast.Assign, _ast.Expr, _ast.Return)):
+                sk.append(_u(st))
+            else:
+                raise _Unsupported("statement in is_consistent: " + _u(st)[:60])
+    walk(_pyx.body_nodoc(fn))
+    return sk, conds
+
+
+def generate():
+    tree = _pyx.parse(SN_PATH)
+    STN = _pyx.find_class(tree, "SymbolicTensorNetwork")
+    ST = _pyx.find_class(tree, "SymbolicTensor")
+    SB = _pyx.find_class(tree, "SymbolicBond")
+    out = ["(* generated by gen/tn.py from %s - do not edit *)" % SN_PATH,
+           "From Qib Require Import TN.TNGenBase.", "Local Open Scope Z_scope.", ""]
+
+    # ------------------------------------------------------------------ merge
+    mg = _fn(STN, "merge")
+    env = {"self.tensors": ("T", "tdict"), "other.tensors": ("To", "tdict"),
+           "self.bonds": ("B", "bdict"), "other.bonds": ("Bo", "bdict")}
+    x = X(env)
+    c, t = x.e(_one(_assigns(mg, "next_tid"), "assignment to next_tid in merge").value)
+    _expect(t == "Z", "next_tid not an integer")
+    out.append(_defn("gen_merge_next_tid", [("T To", "dict tensor")], c, "Z"))
+    c, t = x.e(_one(_assigns(mg, "next_bid"), "assignment to next_bid in merge").value)
+    _expect(t == "Z", "next_bid not an integer")
+    out.append(_defn("gen_merge_next_bid", [("B Bo", "dict bond")], c, "Z"))
+    # tmp_open_tid is assigned twice: the initial constant and inside the relabelling loop
+    asg = _assigns(mg, "tmp_open_tid")
+    _expect(len(asg) == 2, "tmp_open_tid must be assigned exactly twice in merge")
+    c0, t0 = x.fix(x.e(asg[0].value), "Z")
+    _expect(t0 == "Z" and _u(asg[1].value) == "next_tid", "tmp_open_tid assignments")
+    out.append(_defn("gen_merge_tmp_init", [], c0, "Z"))
+    # the two relabelling loops: rename(id, next); [if tid == -1: tmp = next]; next += 1
+    loops = [n for n in mg.body if isinstance(n, _ast.For) and _u(n.iter) in ("shared_tids", "shared_bids")]
+    _expect(len(loops) == 2, "relabelling loops of merge")
+    for lp, (it, var, ren, nxt) in zip(loops, [("shared_tids", "tid", "rename_tensor", "next_tid"), ("shared_bids", "bid", "rename_bond", "next_bid")]):
+        _expect(_u(lp.iter) == it and _u(lp.target) == var, "loop header " + _u(lp.iter))
+        body = lp.body
+        _expect(_u(body[0]) == "other.%s(%s, %s)" % (ren, var, nxt), "first statement of the %s loop: %s" % (it, _u(body[0])))
+        last = body[-1]
+        _expect(isinstance(last, _ast.AugAssign) and _u(last.target) == nxt and isinstance(last.op, _ast.Add), "increment of " + nxt)
+        inc, ti = X({nxt: ("next", "Z")}).e(_ast.BinOp(left=_ast.Name(id=nxt), op=_ast.Add(), right=last.value))
+        out.append(_defn("gen_merge_%s_step" % var, [("next", "Z")], inc, "Z"))
+        if var == "tid":
+            _expect(len(body) == 3 and isinstance(body[1], _ast.If) and not body[1].orelse and len(body[1].body) == 1
+                    and _u(body[1].body[0]) == "tmp_open_tid = next_tid", "virtual-tensor bookkeeping in the shared_tids loop")
+            cv, tv = X({"tid": ("tid", "Z")}).e(body[1].test)
+            out.append(_defn("gen_merge_is_virtual", [("tid", "Z")], cv, "bool"))
+        else:
+            _expect(len(body) == 2, "shared_bids loop body")
+    _expect(_u(_one(_assigns(mg, "shared_tids"), "shared_tids").value) == "self.tensors.keys() & other.tensors.keys()", "shared_tids")
+    _expect(_u(_one(_assigns(mg, "shared_bids"), "shared_bids").value) == "self.bonds.keys() & other.bonds.keys()", "shared_bids")
+    # join validation: for joinax in join_axes: if c: raise ValueError ...
+    gs = _guards(mg)
+    _expect(len(gs) == 2, "merge must have exactly two ValueError guards, found %d" % len(gs))
+    jx = X({"joinax[0]": ("j0", "Z"), "joinax[1]": ("j1", "Z"), "self.num_open_axes": ("n1", "nat"), "other.num_open_axes": ("n2", "nat")})
+    cs = []
+    for g in gs:
+        c, t = jx.e(g.test)
+        _expect(t == "bool", "guard type")
+        cs.append(c)
+    out.append(_defn("gen_merge_join_refused", [("j0 j1", "Z"), ("n1 n2", "nat")], "(%s || %s)" % tuple(cs), "bool"))
+    # del_axes
+    da = _one(_assigns(mg, "del_axes"), "del_axes")
+    c, t = X({"tensor_open_axes.ndim": ("ndim", "nat"), "axes_map": ("amap", "nlist")}).e(da.value)
+    _expect(t == "nlist", "del_axes type")
+    out.append(_defn("gen_merge_del_axes", [("ndim", "nat"), ("amap", "list nat")], c, "list nat"))
+    # the assert inside the deletion loop
+    asserts = [n for n in _ast.walk(mg) if isinstance(n, _ast.Assert)]
+    a = _one(asserts, "assert in merge")
+    c, t = X({"bond.tids": ("tids", "zlist")}).e(a.test)
+    out.append(_defn("gen_merge_bond_still_ok", [("tids", "list Z")], c, "bool"))
+    # final selection of the kept open axes
+    for attr, ty, d in (("shape", "nlist", "list nat"), ("bids", "zlist", "list Z")):
+        asg = _one(_assigns(mg, "tensor_open_axes." + attr), "tensor_open_axes." + attr)
+        v = asg.value
+        if isinstance(v, _ast.Call) and _u(v.func) == "tuple" and len(v.args) == 1 and isinstance(v.args[0], _ast.GeneratorExp):
+            v = _ast.ListComp(elt=v.args[0].elt, generators=v.args[0].generators)
+        c, t = X({"tensor_open_axes." + attr: ("l", ty), "axes_map": ("amap", "nlist")}).e(v)
+        _expect(t == ty, "kept " + attr)
+        out.append(_defn("gen_merge_keep_" + attr, [("l", d), ("amap", "list nat")], c, d))
+
+    # ------------------------------------------------------------------ renames, bond, transpose: preconditions
+    for fname, a, b, dn, dty in (("rename_tensor", "tid_cur", "tid_new", "self.tensors", "tdict"),
+                                 ("rename_bond", "bid_cur", "bid_new", "self.bonds", "bdict")):
+        gs = _guards(_fn(STN, fname))
+        _expect(len(gs) == 2, fname + " guards")
+        xx = X({a: ("a", "Z"), b: ("c", "Z"), dn: ("D", dty)})
+        cs = [xx.e(g.test) for g in gs]
+        _expect(all(t == "bool" for _, t in cs), fname + " guard types")
+        out.append(_defn("gen_%s_refused" % fname, [("a c", "Z"), ("D", "dict %s" % ("tensor" if dty == "tdict" else "bond"))],
+                         "(%s || %s)" % (cs[0][0], cs[1][0]), "bool"))
+    g = _one(_guards(_fn(SB, "__init__")), "SymbolicBond guard")
+    c, t = X({"tids": ("tids", "zlist")}).e(g.test)
+    out.append(_defn("gen_bond_refused", [("tids", "list Z")], c, "bool"))
+    c, t = X({"tids": ("tids", "zlist")}).e(_one(_assigns(_fn(SB, "__init__"), "self.tids"), "self.tids").value)
+    _expect(t == "zlist", "SymbolicBond.tids")
+    out.append(_defn("gen_bond_tids", [("tids", "list Z")], c, "list Z"))
+    tr = _fn(ST, "transpose")
+    g = _one(_guards(tr), "SymbolicTensor.transpose guard")
+    _expect(_u(g.test) == "len(set(axes)) != len(axes)", "transpose guard is not the distinctness test: " + _u(g.test))
+    out.append("(* pinned: `len(set(axes)) != len(axes)`  =  the axes repeat an entry *)\n"
+               "Definition gen_transpose_refused (axes : list nat) : bool := negb (nnodupb axes).\n")
+    for attr, ty, d, z in (("shape", "nlist", "list nat", "0%nat"), ("bids", "zlist", "list Z", "0%Z")):
+        asg = _one(_assigns(tr, "self." + attr), "self.%s in transpose" % attr)
+        v = asg.value
+        if isinstance(v, _ast.Call) and _u(v.func) == "tuple" and len(v.args) == 1 and isinstance(v.args[0], _ast.GeneratorExp):
+            v = _ast.ListComp(elt=v.args[0].elt, generators=v.args[0].generators)
+        c, t = X({"self." + attr: ("l", ty), "axes": ("axes", "nlist")}).e(v)
+        _expect(t == ty, "transposed " + attr)
+        out.append(_defn("gen_transpose_" + attr, [("l", d), ("axes", "list nat")], c, d))
+
+    # ------------------------------------------------------------------ contraction tree ids
+    bt = _fn(STN, "build_contraction_tree")
+    c, t = X({"self.tensors": ("T", "tdict")}).e(_one(_assigns(bt, "max_tid"), "max_tid").value)
+    ret = _one([n for n in bt.body if isinstance(n, _ast.Return)], "return of build_contraction_tree")
+    _expect(isinstance(ret.value, _ast.Call) and _u(ret.value.func) == "self._build_contraction_tree" and len(ret.value.args) == 2
+            and _u(ret.value.args[0]) == "scaffold", "build_contraction_tree return")
+    c2, t2 = X({"max_tid": ("(%s)" % c, "Z")}).e(ret.value.args[1])
+    out.append(_defn("gen_tree_first_id", [("T", "dict tensor")], c2, "Z"))
+    rb = _fn(STN, "_build_contraction_tree")
+    bumps = [n for n in _ast.walk(rb) if isinstance(n, _ast.If) and _u(n.test) in ("nL.tid >= next_tid", "nR.tid >= next_tid")]
+    _expect(len(bumps) == 2, "id bump rule of _build_contraction_tree")
+    forms = set()
+    for b in bumps:
+        _expect(len(b.body) == 1 and not b.orelse and isinstance(b.body[0], _ast.Assign) and _u(b.body[0].targets[0]) == "next_tid", "bump body")
+        who = _u(b.test).split(".")[0]
+        cc, _ = X({who + ".tid": ("tid", "Z"), "next_tid": ("next", "Z")}).e(
+            _ast.IfExp(test=b.test, body=b.body[0].value, orelse=_ast.Name(id="next_tid")))
+        forms.add(cc)
+    _expect(len(forms) == 1, "left and right bump rules differ")
+    out.append(_defn("gen_tree_bump", [("next tid", "Z")], forms.pop(), "Z"))
+
+    # ------------------------------------------------------------------ as_einsum
+    ae = _fn(STN, "as_einsum")
+    c, t = X({"self.tensors": ("T", "tdict")}).e(_one(_assigns(ae, "max_tid"), "max_tid in as_einsum").value)
+    out.append(_defn("gen_einsum_max_tid", [("T", "dict tensor")], c, "Z"))
+    tids_asg = _assigns(ae, "tids")[0].value
+    _expect(isinstance(tids_asg, _ast.Call) and _u(tids_asg.func) == "sorted" and _u(tids_asg.args[0]) == "list(self.tensors.keys())"
+            and len(tids_asg.keywords) == 1 and tids_asg.keywords[0].arg == "key" and isinstance(tids_asg.keywords[0].value, _ast.Lambda),
+            "tids of as_einsum is not sorted(list(keys), key=lambda ...)")
+    lam = tids_asg.keywords[0].value
+    _expect(len(lam.args.args) == 1, "sort key lambda")
+    v = lam.args.args[0].arg
+    c, t = X({v: ("tid", "Z"), "max_tid": ("mx", "Z")}).e(lam.body)
+    _expect(t == "Z", "sort key type")
+    out.append(_defn("gen_einsum_sort_key", [("mx tid", "Z")], c, "Z"))
+    imin = _one(_assigns(ae, "imin"), "imin")
+    _expect(isinstance(imin.value, _ast.Call) and _u(imin.value.func) == "min" and len(imin.value.keywords) == 1
+            and imin.value.keywords[0].arg == "default", "imin is not min(..., default=...)")
+    c, t = X({}).fix(X({}).e(imin.value.keywords[0].value), "nat")
+    out.append(_defn("gen_einsum_min_default", [], c, "nat"))
+    _expect(_u(imin.value.args[0]) == "(tidx[i][ax] for i, ax in zip(it, bond_axes))", "imin ranges over: " + _u(imin.value.args[0]))
+    io = _assigns(ae, "idxout")
+    _expect(len(io) == 2 and _u(io[0].value) == "tidx[-1]", "idxout assignments of as_einsum")
+    _expect(_u(io[1].value) == "[i for k, i in enumerate(idxout) if i not in idxout[:k]]",
+            "first-occurrence rule changed: " + _u(io[1].value))
+    out.append("(* pinned: [i for k, i in enumerate(idxout) if i not in idxout[:k]] *)\n"
+               "Definition gen_einsum_out (logical : list nat) : list nat := keep_first logical.\n")
+    am = _one(_assigns(ae, "axes_map"), "axes_map of as_einsum")
+    _expect(isinstance(am.value, _ast.ListComp) and len(am.value.generators) == 1 and _u(am.value.generators[0].iter) == "idxout_logical"
+            and not am.value.generators[0].ifs, "axes_map comprehension")
+    v = _u(am.value.generators[0].target)
+    c, t = X({"idxout": ("out", "nlist"), v: ("i", "nat")}).e(am.value.elt)
+    _expect(t == "onat", "axes_map element is not a list index")
+    out.append(_defn("gen_einsum_axes_map", [("out logical", "list nat")], "omap (fun i => %s) logical" % c, "option (list nat)"))
+
+    # ------------------------------------------------------------------ is_consistent
+    ic = _fn(STN, "is_consistent")
+    sk, conds = _ic_skeleton(ic)
+    _expect(sk == IC_SKELETON, "loop skeleton of is_consistent changed:\n  got      %r\n  expected %r" % (sk, IC_SKELETON))
+    _expect(len(conds) == 11, "is_consistent must have 11 failure conditions")
+    tb = {"self.tensors": ("T", "tdict"), "self.bonds": ("B", "bdict"), "k": ("k", "Z"), "tensor": ("t", "tensor"),
+          "bond": ("b", "bond"), "bid": ("bid", "Z"), "tid": ("tid", "Z"), "ax": ("ax", "nat"), "dims": ("dims", "nlist")}
+    xi = X(tb)
+    params = {0: [("T", "dict tensor")], 1: [("k", "Z"), ("t", "tensor")], 2: [("bid", "Z"), ("B", "dict bond")],
+              3: [("t", "tensor"), ("b", "bond"), ("bid", "Z")], 4: [("k", "Z"), ("b", "bond")], 5: [("b", "bond")],
+              7: [("tid", "Z"), ("T", "dict tensor")], 8: [("t", "tensor"), ("ax", "nat")],
+              9: [("t", "tensor"), ("ax", "nat"), ("b", "bond")], 10: [("dims", "list nat")]}
+    for i, cnd in enumerate(conds):
+        if i == 6:
+            _expect(_u(cnd) == "(bond.tids[i], bond_axes[i]) in zip(bond.tids[:i], bond_axes[:i])", "pair-repetition test changed: " + _u(cnd))
+            out.append("(* pinned: (bond.tids[i], bond_axes[i]) in zip(bond.tids[:i], bond_axes[:i]) for some i *)\n"
+                       "Definition gen_ic_fail_6 (tids : list Z) (axs : list nat) : bool := pairs_repeat tids axs.\n")
+            continue
+        c, t = xi.e(cnd)
+        _expect(t == "bool", "condition %d of is_consistent is not boolean" % i)
+        out.append(_defn("gen_ic_fail_%d" % i, params[i], c, "bool"))
+    return "\n".join(out)
